@@ -30,6 +30,9 @@ func soupLines() []string {
 			add("%sTOPIC %s :t", s, c)
 			add("%sMODE %s +o-v a b", s, c)
 			add("%sMODE %s +k", s, c)
+			add("%sMODE %s +bo *!*@bad.host a", s, c)
+			add("%sMODE %s -e+v b b", s, c)
+			add("%sMODE %s +b", s, c)
 			for _, n := range nicks {
 				add("%sKICK %s %s :x", s, c, n)
 				add("%sMODE %s +o %s", s, c, n)
